@@ -15,12 +15,14 @@ let show_di = function
   | DOutOfFuel -> "OUTOFFUEL"
 let events f l = if l = [] then "." else String.concat "|" (List.map f l)
 let sep_of = function "0" -> SepSpace | "1" -> SepLF | _ -> SepCRLF
+let eol_of = function "0" -> EolLF | "1" -> EolCRLF | _ -> EolNone
 let style_of = function "1" -> StyleMakefile | "2" -> StyleDependencyInfo | "3" -> StyleMakefileIgnoringSubsequent | _ -> StyleUnused
 let kind_of = function "I" -> KInput | "M" -> KMissing | _ -> KOutput
 let () =
   register "makedeps" (function [ign; d] -> events show_md (md_parse (ign = "1") (bytes_of_hex d)) | _ -> "ERR args");
   register "depinfo" (function [d] -> events show_di (di_parse (bytes_of_hex d)) | _ -> "ERR args");
   register "md_write" (function [t; ps; s] -> hex_of_bytes (md_write (bytes_of_hex t) (list_of_field ps) (sep_of s)) | _ -> "ERR args");
+  register "md_write_eol" (function [t; ps; s; e] -> hex_of_bytes (md_write_eol (bytes_of_hex t) (list_of_field ps) (sep_of s) (eol_of e)) | _ -> "ERR args");
   register "wf_path" (function [p] -> b2s (wf_path (bytes_of_hex p)) | _ -> "ERR args");
   register "wf_target" (function [p] -> b2s (wf_target (bytes_of_hex p)) | _ -> "ERR args");
   (* di_write <hexversion> <kind:hex,kind:hex,... | .> *)
